@@ -71,11 +71,11 @@ Lemma eval_entry_sound :
     fst (eval_entry w d e (r, c1)) = fst (eval_entry w d e (r, c2)) /\
     sound w (snd (eval_entry w d e (r, c1))) /\ sound w (snd (eval_entry w d e (r, c2))).
 Proof.
-  intros w d e r c1 c2 Hk H1 H2. unfold eval_entry. destruct (e_expr e); cbn; auto.
-  destruct (handle_dynamic_sound w text (e_dir e) d (env_from_vars w r) c1 Hk H1) as [A1 B1].
-  destruct (handle_dynamic_sound w text (e_dir e) d (env_from_vars w r) c2 Hk H2) as [A2 B2].
-  destruct (handle_dynamic w text (e_dir e) d (env_from_vars w r) c1) as [v1 c1'].
-  destruct (handle_dynamic w text (e_dir e) d (env_from_vars w r) c2) as [v2 c2'].
+  intros w d e r c1 c2 Hk H1 H2. unfold eval_entry. destruct (e_expr e) as [s|ps|ps|m]; cbn; auto.
+  destruct (handle_dynamic_sound w (render ps r) (e_dir e) d (env_from_vars w r) c1 Hk H1) as [A1 B1].
+  destruct (handle_dynamic_sound w (render ps r) (e_dir e) d (env_from_vars w r) c2 Hk H2) as [A2 B2].
+  destruct (handle_dynamic w (render ps r) (e_dir e) d (env_from_vars w r) c1) as [v1 c1'].
+  destruct (handle_dynamic w (render ps r) (e_dir e) d (env_from_vars w r) c2) as [v2 c2'].
   cbn in *. subst. auto.
 Qed.
 
@@ -109,11 +109,11 @@ Lemma env_resolve_sound :
     sound w (snd (env_resolve w dir done todo c1)) /\ sound w (snd (env_resolve w dir done todo c2)).
 Proof.
   intros w dir todo. induction todo as [|e todo IH]; intros done c1 c2 Hk H1 H2; [cbn; auto|].
-  cbn [env_resolve]. destruct (e_expr e); try (apply IH; auto).
-  destruct (handle_dynamic_sound w text (e_dir e) dir (env_from_vars w (done ++ statics todo)) c1 Hk H1) as [A1 B1].
-  destruct (handle_dynamic_sound w text (e_dir e) dir (env_from_vars w (done ++ statics todo)) c2 Hk H2) as [A2 B2].
-  destruct (handle_dynamic w text (e_dir e) dir (env_from_vars w (done ++ statics todo)) c1) as [v1 c1'].
-  destruct (handle_dynamic w text (e_dir e) dir (env_from_vars w (done ++ statics todo)) c2) as [v2 c2'].
+  cbn [env_resolve]. destruct (e_expr e) as [s|ps|ps|m]; try (apply IH; auto).
+  destruct (handle_dynamic_sound w (render ps []) (e_dir e) dir (env_from_vars w (done ++ statics todo)) c1 Hk H1) as [A1 B1].
+  destruct (handle_dynamic_sound w (render ps []) (e_dir e) dir (env_from_vars w (done ++ statics todo)) c2 Hk H2) as [A2 B2].
+  destruct (handle_dynamic w (render ps []) (e_dir e) dir (env_from_vars w (done ++ statics todo)) c1) as [v1 c1'].
+  destruct (handle_dynamic w (render ps []) (e_dir e) dir (env_from_vars w (done ++ statics todo)) c2) as [v2 c2'].
   cbn in *. subst. apply IH; auto.
 Qed.
 
@@ -242,9 +242,9 @@ Definition sh_pwd (text dir : string) (env : vars) : string := dir.
 Definition sh_task (text dir : string) (env : vars) : string := vgetd "TASK" env.
 
 Definition dir_task (d : string) : tctx :=
-  plain_task d ("ROOT/" ++ d)%string [] [{| e_name := "P"; e_expr := Sh "pwd"; e_dir := "" |}] ["P"].
+  plain_task d ("ROOT/" ++ d)%string [] [{| e_name := "P"; e_expr := Sh [TLit "pwd"]; e_dir := "" |}] ["P"].
 Definition env_task (n : string) : tctx :=
-  plain_task n "ROOT" [("TASK", n)] [{| e_name := "P"; e_expr := Sh "echo $TASK"; e_dir := "" |}] ["P"].
+  plain_task n "ROOT" [("TASK", n)] [{| e_name := "P"; e_expr := Sh [TLit "echo $TASK"]; e_dir := "" |}] ["P"].
 
 Definition after (w : world) (P : params) (first second : tctx) : outputs :=
   fst (compile w P second (snd (compile w P first empty_shared))).
@@ -335,7 +335,7 @@ Definition dir_from_global : tctx :=
   {| x_name := "t"; x_special := []; x_genv := [];
      x_gvars := [{| e_name := "GD"; e_expr := Lit "d1"; e_dir := "" |}];
      x_incvars := []; x_incfile := []; x_call := [];
-     x_tvars := [{| e_name := "P"; e_expr := Sh "pwd"; e_dir := "" |}];
+     x_tvars := [{| e_name := "P"; e_expr := Sh [TLit "pwd"]; e_dir := "" |}];
      x_root_dir := "ROOT"; x_task_dir := "ROOT/d1"; x_dir_tmpl := Some [TVar "GD"];
      x_tdot := []; x_tenv := []; x_matrix := None; x_vprobes := ["P"]; x_eprobes := []; x_defers := [] |}.
 
